@@ -652,9 +652,15 @@ class Visitor:
         Parameters:
             node: The node to visit.
         """
+        type_guarded = self.type_guarded
         if isinstance(node.parent, (ast.Module, ast.ClassDef)):  # type: ignore[attr-defined]
             condition = safe_get_condition(node.test, parent=self.current, log_level=None)
             if str(condition) in {"typing.TYPE_CHECKING", "TYPE_CHECKING"}:
                 self.type_guarded = True
-        self.generic_visit(node)
-        self.type_guarded = False
+        for child in ast_children(node):
+            if node.orelse and child is node.orelse[0]:
+                # The `else` branch is executed at runtime.
+                self.type_guarded = type_guarded
+            self.visit(child)
+        # Restore the previous state instead of resetting it: we might be nested in a type-guarded block.
+        self.type_guarded = type_guarded
